@@ -2011,11 +2011,14 @@ struct Value {
 
                 while (item_ != end) {
                     // The grouping key can sit anywhere inside each object: look it up per item.
-                    if (item_->isObject() && item_->object_.GetKeyIndex(grouped_key_index, key, length)) {
+                    // (GetObject() also reads through an item that is a pointer to an object.)
+                    const ObjectT *item_object = item_->GetObject();
+
+                    if ((item_object != nullptr) && item_object->GetKeyIndex(grouped_key_index, key, length)) {
                         SizeT count = 0;
 
-                        const VItem *obj_item = item_->object_.First();
-                        const VItem *obj_end  = item_->object_.End();
+                        const VItem *obj_item = item_object->First();
+                        const VItem *obj_end  = item_object->End();
 
                         while (obj_item != obj_end) {
                             if (count == grouped_key_index) {
